@@ -434,6 +434,31 @@ def check_strip(case, cc):
     classes(cc, cfg, model)
     n_prs = sum(len(p) for p in model['prs'])
     cc.nt(n_prs >= 2)
+    extra_marks = 0
+    if len(lrs) >= 2 and sum(len(x) for x in lrs) % 3 == 0:
+        # a tape image: the logical records are two files on one tape, separated by a tape mark - a marker of type 1 without
+        # payload between two physical records (here: before the first physical record of logical record k), pointers relinked
+        import struct
+        k = 1 + len(lrs[0]) % (len(lrs) - 1)
+        at = sum(len(p) for p in model['prs'][:k])
+        blocks, pos = [], 0
+        while pos + 12 <= len(tif_bytes):
+            typ, _prev, nxt = struct.unpack('<3L', tif_bytes[pos:pos + 12])
+            if nxt <= pos:
+                break
+            blocks.append((typ, tif_bytes[pos + 12:nxt]))
+            pos = nxt
+        if len(blocks) == n_prs + 2:
+            blocks.insert(at, (1, b''))
+            joined, prev = b'', 0
+            for typ, payload in blocks:
+                tell = len(joined)
+                joined += struct.pack('<3L', typ, prev, tell + 12 + len(payload)) + payload
+                prev = tell
+            tif_bytes = joined
+            extra_marks = 1
+            cc.cls('tape-image:tape-mark-between-two-logical-records')
+    n_prs += extra_marks
     out = KeepOpen()
     markers, written = DeTif.strip_tif(engine.handle(tif_bytes), out)
     if out.getvalue() != plain:
@@ -495,3 +520,4 @@ def parts(tier):
 
 
 RULE += '  Added after the seeding rounds: part write-many-records (> 65536 physical records, record number trailer wraps); checksums of the last logical record must equal those of a fresh writer (history independence; the value is not modelled); handles positioned anywhere.'
+RULE += '  Round 17: strip-tif also on tape images (a type 1 marker between two logical records).'
